@@ -69,7 +69,23 @@ def _entry_points():
         pt.save_score_midi(x, b)
         return b.getvalue()
 
+    def save_match(x, s):
+        # a note-for-note performance of the part, aligned to it, written with the part taken as it is (assume_unfolded)
+        from contracts.c08 import _triple
+        import tempfile
+        import shutil
+        part = as_part(x)
+        ppart, al = _triple(part, "plain")
+        d = tempfile.mkdtemp(prefix="c20_")
+        try:
+            fn = os.path.join(d, "x.match")
+            pt.save_match(al, ppart, part, fn, assume_unfolded=True)
+            return [ln for ln in open(fn, encoding="utf-8").read().splitlines() if not ln.startswith("info(matchFileVersion") and "Date" not in ln]
+        finally:
+            shutil.rmtree(d, ignore_errors=True)
+
     eps = [
+        ("save_match", "partitura.io.exportmatch.matchfile_from_alignment", "spart", save_match),
         ("save_musicxml", "partitura.io.exportmusicxml.save_musicxml", "score_data", save_xml),
         ("save_score_midi", "partitura.io.exportmidi.save_score_midi", "score_data", save_midi),
         ("Part.note_array", "partitura.score.Part.note_array", "self", lambda x, s: as_part(x).note_array(include_pitch_spelling=True, include_key_signature=True, include_time_signature=True, include_staff=True, include_divs_per_quarter=True)),
